@@ -46,6 +46,8 @@ GEN_ORIGIN = {
     "list": list, "set": set, "frozenset": frozenset, "deque": deque, "tuple_var": tuple, "tuple_fix": tuple,
     "dict": dict, "Sequence": cabc.Sequence, "Iterable": cabc.Iterable, "Iterator": cabc.Iterator, "Mapping": cabc.Mapping,
 }
+CONSTRAINT_ORDER = ["gt", "ge", "lt", "le", "const", "enum", "regex", "decimal_places", "multiple_of", "max_digits",
+                    "length", "max_length", "min_length", "unique_items"]  # documented evaluation order (Rule.__constraints__)
 LAXABLE = {"max_length", "length", "ge", "le", "decimal_places", "max_digits", "multiple_of", "const", "enum", "unique_items"}
 
 INT_BOUNDS = [-10, -1, 0, 1, 2, 3, 7, 10, 11, 100, 255]
@@ -642,6 +644,11 @@ def _conforms(value, spec, built_dc=None, path="$"):
             if h is None:
                 raise Unjudged(f"{cname}")
             if h is False:
+                later = [l for l in lax if l in CONSTRAINT_ORDER and cname in CONSTRAINT_ORDER
+                         and CONSTRAINT_ORDER.index(l) > CONSTRAINT_ORDER.index(cname)]
+                if later:
+                    return ("strict-then-lax:%s<%s" % (cname, later[0]),
+                            f"{path}: {V_short(value)} violates strict {cname}={b!r} after the later lax {later[0]} transformed it")
                 return ("constraint:" + cname, f"{path}: {V_short(value)} violates strict constraint {cname}={b!r}")
         return None
     if k == "gen":
